@@ -6,17 +6,21 @@ from .. import apiuniverse as au
 
 KNOWN = ['OpCacheKeyedByName', 'NodeCacheSurvives', 'StateStash', 'TemplateCacheByPath']
 FINDING_OF = {'OpCacheKeyedByName': 'D08', 'NodeCacheSurvives': 'D09', 'StateStash': 'D40', 'TemplateCacheByPath': 'D23'}
-ALL_PROPS = ['ReadOnlyPreservesMeaning', 'OnlyAddressedChange', 'EdgeOverrideOnlyItsEdge', 'LoadYieldsFile', 'ClearModelClears']
+ALL_PROPS = ['ReadOnlyPreservesMeaning', 'OnlyAddressedChange', 'EdgeOverrideOnlyItsEdge', 'LoadYieldsFile', 'ClearModelClears', 'DeriveCopies']
 
 
-def tlc_behaviours(ctx, name, calls, maxlen, workers=16, simulate=None, extra=()):
-    c0 = tlc.cfg(constants=dict(Dev=set(), Calls=set(calls), MaxLen=maxlen), invariants=['HistoryIndependent'],
+ALL_CIRCS = {'c1', 'c2', 'c3', 'cy', 'd1'}
+
+
+def tlc_behaviours(ctx, name, calls, maxlen, workers=16, simulate=None, extra=(), circs=None):
+    circs = set(circs or ALL_CIRCS)
+    c0 = tlc.cfg(constants=dict(Circs=circs, Dev=set(), Calls=set(calls), MaxLen=maxlen), invariants=['HistoryIndependent'],
                  properties=ALL_PROPS, constraints=['Bound'] + list(extra), view='View')
     r0 = tlc.run_tlc('Api', c0, workers=workers, timeout=3000)
     ctx.add_tlc(f'design:{name}', r0, 'Dev={}: P refines M, action properties')
     if not r0['ok']:
         ctx.spec_violation(name, r0)
-    c1 = tlc.cfg(constants=dict(Dev=set(KNOWN), Calls=set(calls), MaxLen=maxlen), invariants=['OnlyKnown'],
+    c1 = tlc.cfg(constants=dict(Circs=circs, Dev=set(KNOWN), Calls=set(calls), MaxLen=maxlen), invariants=['OnlyKnown'],
                  constraints=['Bound', 'NoStaleNodeCache'] + list(extra), view='View', next='NextExport')
     r1 = tlc.run_tlc('Api', c1, workers=workers, timeout=3000)
     ctx.add_tlc(f'export:{name}', r1, 'Dev=Known: behaviours with expM / expP')
@@ -25,7 +29,7 @@ def tlc_behaviours(ctx, name, calls, maxlen, workers=16, simulate=None, extra=()
     behs = r1['exports'].get('BEH', [])
     if simulate:
         num, depth = simulate
-        c2 = tlc.cfg(constants=dict(Dev=set(KNOWN), Calls=set(calls), MaxLen=depth), invariants=['OnlyKnown', 'ExportSim'], constraints=['NoStaleNodeCache'])
+        c2 = tlc.cfg(constants=dict(Circs=circs, Dev=set(KNOWN), Calls=set(calls), MaxLen=depth), invariants=['OnlyKnown', 'ExportSim'], constraints=['NoStaleNodeCache'])
         r2 = tlc.run_tlc('Api', c2, workers=1, simulate=f'num={num}', depth=depth + 1, seed=ctx.seed + 7, timeout=3000)
         ctx.add_tlc(f'simulate:{name}', r2, f'{num} random histories of depth {depth}')
         behs += r2['exports'].get('BEH', [])
@@ -39,13 +43,13 @@ def tlc_behaviours_cy(ctx, maxlen, plain):
     """Deep histories about the circuit loaded from a YAML file (from_yaml / update_var / compile / clear(model)), one
     behaviour per (abstract state, sequence of call kinds): path coverage of the template cache and of clear()."""
     cons = ['Bound', 'OnlyCy'] + (['PlainCalls'] if plain else [])
-    c0 = tlc.cfg(constants=dict(Dev=set(), Calls=set(CY_CALLS), MaxLen=maxlen), invariants=['HistoryIndependent'],
+    c0 = tlc.cfg(constants=dict(Circs={'cy'}, Dev=set(), Calls=set(CY_CALLS), MaxLen=maxlen), invariants=['HistoryIndependent'],
                  properties=ALL_PROPS, constraints=cons, view='ViewSig')
     r0 = tlc.run_tlc('Api', c0, workers=16, timeout=3000)
     ctx.add_tlc('design:yaml-circuit', r0, 'Dev={}: histories of the YAML-loaded circuit, P refines M')
     if not r0['ok']:
         ctx.spec_violation('yaml-circuit', r0)
-    c1 = tlc.cfg(constants=dict(Dev=set(KNOWN), Calls=set(CY_CALLS), MaxLen=maxlen), invariants=['OnlyKnown'],
+    c1 = tlc.cfg(constants=dict(Circs={'cy'}, Dev=set(KNOWN), Calls=set(CY_CALLS), MaxLen=maxlen), invariants=['OnlyKnown'],
                  constraints=cons + ['NoStaleNodeCache'], view='ViewSig', next='NextExport')
     r1 = tlc.run_tlc('Api', c1, workers=16, timeout=3000)
     ctx.add_tlc('export:yaml-circuit', r1, 'Dev=Known: one behaviour per abstract state and sequence of call kinds')
@@ -54,8 +58,30 @@ def tlc_behaviours_cy(ctx, maxlen, plain):
     return r1['exports'].get('BEH', [])
 
 
+PAIR_CALLS = ['compile', 'update_var', 'derive']
+
+
+def tlc_behaviours_pair(ctx, maxlen):
+    """Histories about c1 and the circuit derived from it (update_var / derive / compile), one behaviour per abstract
+    state and sequence of call kinds: aliasing of privately copied node templates between a circuit and its derivative."""
+    cons = ['Bound', 'OnlyPair', 'PlainCalls', 'ClearingCompiles']
+    c0 = tlc.cfg(constants=dict(Circs={'c1', 'd1'}, Dev=set(), Calls=set(PAIR_CALLS), MaxLen=maxlen), invariants=['HistoryIndependent'],
+                 properties=ALL_PROPS, constraints=cons, view='ViewSig')
+    r0 = tlc.run_tlc('Api', c0, workers=16, timeout=3000)
+    ctx.add_tlc('design:derived-circuit', r0, 'Dev={}: a circuit and its derivative, P refines M')
+    if not r0['ok']:
+        ctx.spec_violation('derived-circuit', r0)
+    c1 = tlc.cfg(constants=dict(Circs={'c1', 'd1'}, Dev=set(KNOWN), Calls=set(PAIR_CALLS), MaxLen=maxlen), invariants=['OnlyKnown'],
+                 constraints=cons + ['NoStaleNodeCache'], view='ViewSig', next='NextExport')
+    r1 = tlc.run_tlc('Api', c1, workers=16, timeout=3000)
+    ctx.add_tlc('export:derived-circuit', r1, 'Dev=Known: one behaviour per abstract state and sequence of call kinds')
+    if not r1['ok']:
+        ctx.spec_violation('derived-circuit:known', r1)
+    return r1['exports'].get('BEH', [])
+
+
 def vacuity(ctx, calls, dev, maxlen=3):
-    c = tlc.cfg(constants=dict(Dev={dev}, Calls=set(calls), MaxLen=maxlen), invariants=['HistoryIndependent'],
+    c = tlc.cfg(constants=dict(Circs=ALL_CIRCS, Dev={dev}, Calls=set(calls), MaxLen=maxlen), invariants=['HistoryIndependent'],
                 properties=ALL_PROPS, constraints=['Bound'], view='View')
     r = tlc.run_tlc('Api', c, workers=8)
     ctx.add_tlc(f'vacuity:{dev}', r, 'the deviation must violate a property')
@@ -77,17 +103,21 @@ def _same(o, units):
     return 'units' in o and o['units'] is not None and [tuple(u) for u in o['units']] == units
 
 
-def judge_all(ctx, behs, what, cap=None):
+def judge_all(ctx, behs, what, cap=None, always=()):
+    """`always`: behaviours of the targeted (deep) explorations, replayed whatever the cap"""
     behs = [b for b in behs if 'NodeCacheSurvives' not in b['dev']]
+    always = [b for b in always if 'NodeCacheSurvives' not in b['dev']]
     if cap and len(behs) > cap:
-        # all short histories, and a seeded sample of the longer ones
+        # all one-call histories, and a seeded sample of the longer ones (the thorough tier replays all of them)
         import random
-        short = [b for b in behs if len(b['calls']) <= 2]
-        rest = [b for b in behs if len(b['calls']) > 2]
+        short = [b for b in behs if len(b['calls']) <= 1]
+        rest = [b for b in behs if len(b['calls']) > 1]
         random.Random(ctx.seed).shuffle(rest)
         ctx.notes['behaviours_exported'] = len(behs)
         behs = short + rest[:max(0, cap - len(short))]
         ctx.notes['behaviours_replayed_cap'] = cap
+    seen = {json.dumps(b['calls'], sort_keys=True) for b in behs}
+    behs = behs + [b for b in always if json.dumps(b['calls'], sort_keys=True) not in seen]
     results = run_cases(au.replay, behs, timeout=300)
     verd = {}
     for b, o in zip(behs, results):
